@@ -115,9 +115,12 @@ type c14Op struct {
 	Fn   func(p *types.Project) (*types.Project, error)
 }
 
-func c14Ops(rng *rand.Rand, nsvc int) []c14Op {
+func c14Ops(rng *rand.Rand, nsvc int, empty bool) []c14Op {
 	pick := func() []string {
 		var r []string
+		if empty || rng.Intn(6) == 0 { // no names at all (the operations have early returns for this)
+			return nil
+		}
 		for i := 1; i <= nsvc; i++ {
 			if rng.Intn(2) == 0 {
 				r = append(r, svcName(i))
@@ -257,7 +260,7 @@ func C14(c *core.Ctx) {
 	}
 
 	// ---- real derivations, recorded
-	nseq, maxLen := 10, 3
+	nseq, maxLen := 20, 3
 	if !c.Quick() {
 		nseq, maxLen = 150, 4
 	}
@@ -271,17 +274,23 @@ func C14(c *core.Ctx) {
 		produced := []*types.Project{cur}
 		dumps := []string{proj.Dump(cur)}
 		var hist []string
-		ops := c14Ops(rng, nsvc)
+		ops := c14Ops(rng, nsvc, false)
 		for step := 0; step < maxLen; step++ {
+			if c.Quick() && s >= len(ops) && step > 0 {
+				break // the no-name variants: one step each in the quick tier
+			}
 			op := ops[rng.Intn(len(ops))]
+			empty := false
 			if s < len(ops) && step == 0 {
 				op = ops[s] // every operation at least once on the fully populated project
+			} else if s < 2*len(ops) && step == 0 {
+				op, empty = ops[s-len(ops)], true // and once without any name
 			}
 			seedA := rng.Int63()
 			before := proj.Dump(cur)
 			// the same random arguments for both applications
 			rs := rand.New(rand.NewSource(seedA))
-			opsA := c14Ops(rs, nsvc)
+			opsA := c14Ops(rs, nsvc, empty)
 			var opA c14Op
 			for _, o := range opsA {
 				if o.Name == op.Name {
@@ -295,7 +304,7 @@ func C14(c *core.Ctx) {
 			}
 			rs2 := rand.New(rand.NewSource(seedA))
 			var opB c14Op
-			for _, o := range c14Ops(rs2, nsvc) {
+			for _, o := range c14Ops(rs2, nsvc, empty) {
 				if o.Name == op.Name {
 					opB = o
 				}
@@ -345,19 +354,26 @@ func C14(c *core.Ctx) {
 		for k := range base.Services {
 			names = append(names, k)
 		}
-		evv := c14Event{Op: "ForEachService", Before: core.HashStr(before), Shared: []string{}, Leaks: []string{}, TopDiff: []string{}, SvcDiff: []string{}, History: []string{"ForEachService"}}
-		_ = base.ForEachService(names, func(name string, svc *types.ServiceConfig) error {
-			evv.Shared = append(evv.Shared, sharedObjects(base, svc)...)
-			for _, o := range proj.Reach(svc) {
-				if !o.InExt {
-					proj.Mutate(o)
-				}
+		// visiting by name, visiting everything (no names), with and without following dependencies
+		for vi, vnames := range [][]string{names, nil, names[:1]} {
+			var vopts []types.DependencyOption
+			if vi == 2 {
+				vopts = []types.DependencyOption{[]types.DependencyOption{types.IncludeDependencies, types.IncludeDependents, types.IgnoreDependencies}[s%3]}
 			}
-			svc.Image = "changed-by-visitor"
-			return nil
-		})
-		evv.After = core.HashStr(proj.Dump(base))
-		events = append(events, evv)
+			evv := c14Event{Op: "ForEachService", Before: core.HashStr(before), Shared: []string{}, Leaks: []string{}, TopDiff: []string{}, SvcDiff: []string{}, History: []string{"ForEachService"}}
+			_ = base.ForEachService(vnames, func(name string, svc *types.ServiceConfig) error {
+				evv.Shared = append(evv.Shared, sharedObjects(base, svc)...)
+				for _, o := range proj.Reach(svc) {
+					if !o.InExt {
+						proj.Mutate(o)
+					}
+				}
+				svc.Image = "changed-by-visitor"
+				return nil
+			}, vopts...)
+			evv.After = core.HashStr(proj.Dump(base))
+			events = append(events, evv)
+		}
 		for _, m := range []string{"MarshalYAML", "MarshalJSON"} {
 			b0 := proj.Dump(base)
 			if m == "MarshalYAML" {
